@@ -186,7 +186,7 @@ def handlePatMatrixMode (mode : String) (ws : List String) : String :=
           let env := mkEnv defs
           if !(arms.all (fun p => patTyped env p ty)) then "ill-typed" else
           let pats := arms.map (fromAst env ty)
-          match checkD env (defaultFuel env ty pats) ty pats with
+          match checkD env (fuelFor env ty pats) ty pats with
           | none => "fuel"
           | some (flags, wits) =>
             let u := "u=" ++ String.ofList (flags.map (fun b => if b then '1' else '0'))
